@@ -156,7 +156,9 @@ def audit(modules: list[str], prefix: str):
     tmp = LEAN / ".lake" / f"audit_{prefix}_{os.getpid()}.lean"
     tmp.write_text(src)
     try:
-        rc, out = sh(["lake", "env", "lean", str(tmp)], cwd=LEAN, timeout=1200)
+        # under the build lock: a concurrent check of another property may be rebuilding shared modules right now
+        with flock(LEAN / ".build.lock"):
+            rc, out = sh(["lake", "env", "lean", str(tmp)], cwd=LEAN, timeout=1200)
     finally:
         tmp.unlink(missing_ok=True)
     axioms = {}
@@ -370,7 +372,8 @@ def run_property(pid: str, tier: str, seed: int) -> int:
             return 2
         if tier == "thorough" and not os.environ.get("VERIF_SKIP_LEANCHECKER"):
             # independent re-check of the compiled .olean files of the property's modules
-            rc_lc, out_lc = sh(["lake", "env", "leanchecker"] + list(mod.LEAN_MODULES), cwd=LEAN, timeout=3000)
+            with flock(LEAN / ".build.lock"):
+                rc_lc, out_lc = sh(["lake", "env", "leanchecker"] + list(mod.LEAN_MODULES), cwd=LEAN, timeout=3000)
             if rc_lc != 0:
                 print("ERROR leanchecker rejected the compiled modules:\n" + out_lc[-1500:])
                 return 2
